@@ -28,12 +28,23 @@ func (self *FieldsMatcher) CheckContainerPreConstraints(r *ChildRequest) (bool, 
 	if r.IsNavigation() {
 		return true, nil
 	}
-	return self.selector.PathMatches(r.Base, r.Path) != self.reverse, nil
+	return self.keep(r.Base, r.Path), nil
 }
 
 func (self *FieldsMatcher) CheckFieldPreConstraints(r *FieldRequest, hnd *ValueHandle) (bool, error) {
 	if r.IsNavigation() {
 		return true, nil
 	}
-	return self.selector.PathMatches(r.Base, r.Path) != self.reverse, nil
+	return self.keep(r.Base, r.Path), nil
+}
+
+func (self *FieldsMatcher) keep(base *Path, candidate *Path) bool {
+	if !self.reverse {
+		return self.selector.PathMatches(base, candidate)
+	}
+	// excluding a/b/c must not exclude a or a/b, which are only on the way to it
+	if x, ok := self.selector.(*PathMatchExpression); ok {
+		return !x.PathSelects(base, candidate)
+	}
+	return !self.selector.PathMatches(base, candidate)
 }
